@@ -167,6 +167,19 @@ CHECKS = {
             "known finding: chunks share the pre-drawn buffers).",
             "The OS scheduling of workers is not controlled; the clock and every seed call are. Equal values = "
             "shared variates holds because payoffs are continuous in the variates (sigma >= 0.05)."),
+    "C15": ("3/C15",
+            "Hypothesis-generated time grids and scripts for every random collaborator (jump counts, jump times, "
+            "jump sizes / sampled states, Brownian increments, coupling uniforms); the returned path is compared "
+            "with a harness re-assembly from the same script",
+            "Exploration: the direct simulator, the Markov chain, the coupled chain (levels 1-2), the Levy-copula "
+            "chain and the copula coupling (d=2,3) are driven in fixed-date, jump-time and maximum-step mode with "
+            "1..12 observation dates and scripted variates; times must increase strictly from 0 to the maturity, "
+            "value(0)=0, the jump path must be the running sum of all scripted jumps up to each time (fine and "
+            "coarse), the diffusion path the cumulative sum of coefficient*sqrt(dt)*w_i with each scripted variate "
+            "used once, inserted points must repeat the preceding value and keep every step under the cap; the "
+            "three finer-grid builders are also checked directly on drawn arrays.",
+            "Scripts replace the random collaborators on the instances (numpy.random.normal on the module for the "
+            "duration of the call); small fixed grids; the coupling kernel itself is C03's subject."),
 }
 
 NOT_YET = "check not built yet in this session; will be claimed when its module exists"
